@@ -44,6 +44,17 @@ def _var_ref(draw, decls):
     d = draw(st.sampled_from(decls))
     cnt = len(d["string"]) + 1 if d["type"] == "string" else d["n"] if d["type"] == "zero" else len(d["values"])
     idx = draw(st.one_of(st.none(), st.integers(0, cnt - 1), st.integers(0, cnt - 1)))
+    # boundary-directed: elements whose address has low 12 bits around 0x800 / 0x000 (lui/addi carry compensation)
+    _, variables, _ = asm.layout(decls, 0x4000)
+    addr, size, _n = variables[d["name"]]
+    near = []
+    for target in (0x800, 0x1000, 0x1800):
+        k = -((addr & 0xFFFF) - 0x4000 - target) // size if size else 0
+        for kk in (k, k, k, k - 1, k + 1):
+            if 0 <= kk < cnt:
+                near.append(kk)
+    if near and draw(st.booleans()):
+        idx = draw(st.sampled_from(near))
     return {"var": d["name"], "idx": idx}
 
 
